@@ -60,6 +60,7 @@ func runBinCase(fam string, data []byte, detail interface{}) *vlib.Outcome {
 		o.Violation = "LoadFromCompiledData(" + show() + ") panicked: " + p
 		o.Detail = detail
 		o.Class = fam + ":PANIC-load"
+		o.Known = knownParsePanic(string(data), p) // the stored source is parsed here
 		return o
 	}
 	cls := "decoded"
